@@ -117,12 +117,15 @@ def readLogical : List Line → List Char → List Char × List Line
     else if l'.getLast? = some '\\' then readLogical rest (b ++ l'.dropLast)
     else (b ++ l', rest)
 
+/-- `ignorePythonSpecifier`: the text before the first ';' -/
+def beforeSemi (l : List Char) : List Char := match cutAt ';' l with | some (a, _) => a | none => l
+
 /-- what one logical line contributes -/
 def lineReq (l0 : List Char) : Option (List Char × List Char) :=
   let l1 := cutOptions l0 []
   let requirement := trimSpace l1
   let l2 := l1.filter (fun c => !(c = ' ' || c = '\t' || c = '\r'))
-  let l3 := match cutAt ';' l2 with | some (a, _) => a | none => l2
+  let l3 := beforeSemi l2
   let l := rmExtras l3 none []
   if l.isEmpty then none
   else if hasPrefix ['-'] l then none
